@@ -56,9 +56,9 @@ func plan(c *vc.Ctx) []histSpec {
 	}
 	if c.Thorough() {
 		add(400, 4096, "small", 100)
-		add(140, 65536, "page", 50)
-		add(48, 65536, "small", 150)
-		add(12, 65536, "big", 20)
+		add(140, 65536, "page", 40)
+		add(52, 65536, "small", 120)
+		add(8, 65536, "big", 16)
 	} else {
 		add(26, 4096, "small", 70)
 		add(8, 65536, "page", 36)
@@ -232,7 +232,7 @@ func runC05(c *vc.Ctx) error {
 		fmt.Printf("C05: segment size %d: %d histories, %d images, %d continuations, %d reopen executions so far, %.1fs\n", seg, len(idx), nItems, nConts, c.Ev.Evals(), time.Since(t0).Seconds())
 	}
 	c.Ev.Set("exhaustive_tail_offsets", c.Thorough() && c.Ev.Counter("regions_sampled_below_cap") == 0 && c.Ev.Counter("regions_all_offsets") > 0)
-	c.Ev.Set("exhaustive_tail_offsets_scope", fmt.Sprintf("thorough tier: every byte offset of the unsynced region is a truncation point for every call of every sixteenth history and 3%% of the calls of the other histories (regions.thorough; regions of more than %d bytes, i.e. entries of 128 KiB / 1 MiB, are sampled); elsewhere and in the quick tier: every offset of the last two records + 64 sampled (regions.quick) or frame/sector boundaries +-1 and 24 sampled offsets (regions.light)", e.exhaustCap))
+	c.Ev.Set("exhaustive_tail_offsets_scope", fmt.Sprintf("thorough tier: every byte offset of the unsynced region is a truncation point for every call of every 24th history and 2%% of the calls of the other histories (regions.thorough; regions of more than %d bytes, i.e. entries of 128 KiB / 1 MiB, are sampled); elsewhere and in the quick tier: every offset of the last two records + 64 sampled (regions.quick) or frame/sector boundaries +-1 and 24 sampled offsets (regions.light)", e.exhaustCap))
 	c.Ev.Set("scratch_on_shm", e.base != c.Scratch)
 	if bad, all := c.Ev.Counter("histories_not_executable"), c.Ev.Counter("histories"); bad*10 > all {
 		// e.g. the WAL cannot be reopened after a clean Close: loud, hence admissible
